@@ -824,8 +824,12 @@ func (x *Exec) harnessOp(op Op, res *OpResult) bool {
 		x.W.FipEvents = append(x.W.FipEvents, FipEvent{false, obj.(*v1alpha1.FloatingIP)})
 		delete(x.Reserved, ip)
 		res.Info = ip
-	case "restart":
-		if err := w.Restart(); err != nil {
+	case "restart", "restartstale":
+		restart := w.Restart
+		if op.K == "restartstale" && x.C.Lag {
+			restart = func() error { return w.RestartStale(pick(5, op.A)) }
+		}
+		if err := restart(); err != nil {
 			res.Err = err
 		}
 		x.W.FipEvents = nil // a fresh informer lists the store; the new IPAM read it in ConfigurePool
@@ -873,6 +877,8 @@ func canonKind(k string) string {
 		return "apirelease"
 	case "createreused":
 		return "create"
+	case "restartstale":
+		return "restart"
 	}
 	return k
 }
